@@ -7,3 +7,6 @@ import TeosVerif.Props.C08
 #print axioms Teos.C08.length_filter_split
 #print axioms Teos.C08.admin_view_partitions
 #print axioms Teos.C08.admin_user_is_what_the_user_sees
+#print axioms Teos.C08.stored_version_is_the_last_accepted
+#print axioms Teos.C08.get_appointment_returns_the_last_accepted_version
+#print axioms Teos.C08.accepted_row_is_the_submitted_blob
